@@ -276,7 +276,7 @@ void HttpMessage::readHeaders()
 		}
 		headerName = line.substring(0, i);
 		headerValue = line.substring(i + 1).trimmed(); // the space after the colon is optional
-		setHeader(headerName, headerValue);
+		_headers[capitalized(headerName)] = headerValue; // not setHeader(): that removes the header when the value is empty ("Host:")
 	}
 }
 
